@@ -26,7 +26,10 @@ EXHAUSTIVE_NOTE = ("quick: every element sequence over {0,1,2} up to length 4 (i
                    "parameters -2..6; all islice argument tuples of length 1..3")
 RULE = ("one case = one call of an anyio.itertools function or functools.reduce compared with its stdlib twin; "
         "enumerated exhaustively over the small domain plus Hypothesis-generated longer inputs (ints, strings, "
-        "tuples); non-trivial = non-empty input whose result differs from the plain input sequence or that raises; "
+        "tuples; sync lists, async iterator objects and closable async generators as sources); pair cases run two "
+        "iterators side by side in two tasks alternating item by item; tee plans include pulls made in an already "
+        "cancelled scope after which the consumer carries on; "
+        "non-trivial = non-empty input whose result differs from the plain input sequence or that raises; "
         "distinct = distinct canonical JSON of (function, inputs, parameters, source kinds)")
 ASSUMPTIONS = [
     "element types with reflexive equality (ints, strings, tuples); NaN-like values excluded",
